@@ -1,2 +1,165 @@
-(* placeholder, replaced below *)
+(* C16 - Timestamps and UTC offsets convert exactly in every direction.
+   Property theorems only: each is closed by `exact` of a lemma proved in
+   proofs/TimeProofs.v, with Print Assumptions beneath it.
+
+   Model: model/Time.v.  An aware datetime is (epoch_us, off_s): the instant
+   in microseconds since the epoch and utcoffset() in seconds; [dt_valid] says
+   |off_s| < 24h and the local wall clock lies in datetime.min..datetime.max.
+   TS_MIN_SECONDS .. TS_MAX_MICROSECONDS come from Generated.v (read from the
+   source on every run). *)
+From Coq Require Import List NArith ZArith Bool.
+From SWH.lib Require Import Bytes Dec DecPad.
+From SWH Require Import Generated.
 From SWH.model Require Import Time.
+From SWH.proofs Require Import TimeProofs.
+Import ListNotations.
+Open Scope Z_scope.
+
+(* Side conditions on the bounds read from the source, under which the
+   theorems below are proved: accepted seconds fit in datetime's range, the
+   microsecond bounds are [0, 999999].  Re-checked on the generated values. *)
+Theorem C16_table_side_conditions : ts_tables_ok = true.
+Proof. exact table_side_conditions. Qed.
+Print Assumptions C16_table_side_conditions.
+
+(* Every valid aware datetime with a whole-minute offset m (|m| < 1440 follows
+   from validity) whose instant has its seconds in the accepted range:
+   from_datetime succeeds; seconds are the FLOOR of the epoch time (also below
+   the epoch: MILLION*s <= e < MILLION*(s+1)), microseconds are kept
+   (e = MILLION*s + us); the recorded offset reads back as m; "-0000" is never
+   produced; and to_datetime gives back the same instant with the same offset. *)
+Theorem C16_datetime_roundtrip : forall e m,
+  let d := mkDt e (m * 60) in
+  dt_valid d = true -> secs_in_range (e / MILLION) ->
+  exists x, from_datetime d = Ok x /\
+    seconds (ts x) = e / MILLION /\ microseconds (ts x) = e mod MILLION /\
+    MILLION * seconds (ts x) <= e < MILLION * (seconds (ts x) + 1) /\
+    0 <= microseconds (ts x) < MILLION /\
+    e = MILLION * seconds (ts x) + microseconds (ts x) /\
+    offset_minutes x = Ok m /\
+    offset_bytes x <> OB_MINUS0000 /\
+    to_datetime x = Ok d.
+Proof. exact datetime_roundtrip. Qed.
+Print Assumptions C16_datetime_roundtrip.
+
+(* Offsets that are not whole minutes (named zones before standard time): the
+   instant is still kept exactly; the offset is floored to minutes. *)
+Theorem C16_datetime_instant_kept : forall e o,
+  let d := mkDt e o in
+  dt_valid d = true -> secs_in_range (e / MILLION) ->
+  exists x, from_datetime d = Ok x /\
+    seconds (ts x) = e / MILLION /\ microseconds (ts x) = e mod MILLION /\
+    offset_minutes x = Ok (o / 60) /\
+    forall d', to_datetime x = Ok d' -> epoch_us d' = e /\ (-1440 < o / 60 -> off_s d' = o / 60 * 60).
+Proof. exact datetime_instant_kept. Qed.
+Print Assumptions C16_datetime_instant_kept.
+
+(* Every offset in the 16-bit range, every flag with  flag -> offset <= 0 :
+   from_numeric_offset succeeds, keeps the timestamp, the recorded bytes are
+   [+-] followed by at least four digits, read back (offset_minutes) as the
+   same number, and are "-0000" iff offset = 0 and the flag is set.
+   General proof by arithmetic on div/mod and the decimal lemmas. *)
+Theorem C16_offset_roundtrip : forall t off neg, -32768 <= off <= 32767 -> (neg = true -> off <= 0) ->
+  exists x, from_numeric_offset t off neg = Ok x /\ ts x = t /\
+    offset_minutes x = Ok off /\
+    (exists sgn digits, offset_bytes x = sgn :: digits /\ (sgn = PLUS \/ sgn = MINUS) /\
+        forallb is_digit digits = true /\ (4 <= length digits)%nat) /\
+    (offset_bytes x = OB_MINUS0000 <-> off = 0 /\ neg = true).
+Proof. exact offset_roundtrip. Qed.
+Print Assumptions C16_offset_roundtrip.
+
+(* The same facts, and the assert branch, re-checked by the kernel on all
+   2 x 65536 points (forallb ... = true by vm_compute, lifted with
+   forallb_forall); the bound is in the statement. *)
+Theorem C16_offset_roundtrip_sweep : forall t off neg, -32768 <= off <= 32767 ->
+  (neg = true /\ 0 < off -> from_numeric_offset t off neg = Err EAssertion) /\
+  (~ (neg = true /\ 0 < off) ->
+     exists x, from_numeric_offset t off neg = Ok x /\ ts x = t /\ offset_minutes x = Ok off /\
+       (offset_bytes x = OB_MINUS0000 <-> off = 0 /\ neg = true) /\
+       offset_modelled (offset_bytes x) = true /\ (5 <= length (offset_bytes x))%nat).
+Proof. exact offset_roundtrip_sweep. Qed.
+Print Assumptions C16_offset_roundtrip_sweep.
+
+(* negative_utc=True with a positive offset: the code's assert fires. *)
+Theorem C16_neg_flag_rejected : forall t off, 0 < off <= 32767 ->
+  from_numeric_offset t off true = Err EAssertion.
+Proof. exact neg_flag_rejected. Qed.
+Print Assumptions C16_neg_flag_rejected.
+
+(* "-0000" is produced only for negative UTC - for every integer offset for
+   which from_numeric_offset succeeds at all. *)
+Theorem C16_minus_zero_iff : forall t off neg x, from_numeric_offset t off neg = Ok x ->
+  (offset_bytes x = OB_MINUS0000 <-> off = 0 /\ neg = true).
+Proof. exact minus_zero_iff. Qed.
+Print Assumptions C16_minus_zero_iff.
+
+(* Recorded offset bytes are kept verbatim, whatever they are, in the object
+   and in the date part of commit/tag manifests (format_author_data). *)
+Theorem C16_offset_verbatim : forall t ob x,
+  from_dict (TRDictNew t (Some ob)) = Ok x ->
+  offset_bytes x = ob /\ timestamp_of_repr t = Ok (ts x) /\
+  author_date_part x = [SP] ++ format_date (ts x) ++ [SP] ++ ob.
+Proof. exact offset_verbatim. Qed.
+Print Assumptions C16_offset_verbatim.
+
+(* The date text: for every seconds value and 0 <= us < 10^6 an independent
+   decoder reads (s, us) back; the text is the decimal of s when us = 0, else
+   the decimal of s, ".", and the 6-digit zero-padded us with trailing zeros -
+   and only zeros - removed (frac ++ zeros = the six digits, frac does not end
+   in 0, is not empty); the text never ends with ".". *)
+Theorem C16_format_date_exact : forall s us, 0 <= us < 1000000 ->
+  let txt := format_date (mkTs s us) in
+  parse_date txt = Some (s, us) /\
+  (us = 0 -> txt = dec_Z s) /\
+  (us <> 0 -> exists frac,
+      txt = dec_Z s ++ [DOT] ++ frac /\ frac <> [] /\ forallb is_digit frac = true /\
+      last frac 0%N <> ZERO /\
+      length (dec_pad 6 (Z.to_N us)) = 6%nat /\
+      exists k, frac ++ repeat ZERO k = dec_pad 6 (Z.to_N us)) /\
+  last txt 0%N <> DOT.
+Proof. exact format_date_exact. Qed.
+Print Assumptions C16_format_date_exact.
+
+(* Seconds / microseconds outside the accepted interval, and values that are
+   not ints (bool included), are rejected with the documented classes; in-range
+   ints are accepted unchanged; no entry point of from_dict yields an
+   out-of-range timestamp. *)
+Theorem C16_range_rejected :
+  (forall s us, secs_in_range s -> us_in_range us -> mk_timestamp (VInt s) (VInt us) = Ok (mkTs s us)) /\
+  (forall s us, ~ secs_in_range s -> mk_timestamp (VInt s) us = Err ETimestampOverflow) /\
+  (forall s us, secs_in_range s -> ~ us_in_range us -> mk_timestamp (VInt s) (VInt us) = Err EValue) /\
+  (forall s us, (forall z, s <> VInt z) -> mk_timestamp s us = Err EAttributeType) /\
+  (forall s us, secs_in_range s -> (forall z, us <> VInt z) -> mk_timestamp (VInt s) us = Err EAttributeType) /\
+  (forall s us t, mk_timestamp s us = Ok t ->
+     exists zs zu, s = VInt zs /\ us = VInt zu /\ secs_in_range zs /\ us_in_range zu /\ t = mkTs zs zu) /\
+  (forall r x, from_dict r = Ok x -> secs_in_range (seconds (ts x)) /\ us_in_range (microseconds (ts x))) /\
+  (forall z, us_in_range z <-> 0 <= z < 1000000).
+Proof. exact range_rejected. Qed.
+Print Assumptions C16_range_rejected.
+
+(* ISO-8601 strings: after the parser (an oracle), a UTC datetime whose zone
+   is named "-00:00" is recorded as "-0000", any other UTC one as "+0000";
+   seconds and microseconds as in the datetime theorem. *)
+Theorem C16_iso8601_minus_zero : forall e flag,
+  let d := mkDt e 0 in
+  dt_valid d = true -> secs_in_range (e / MILLION) ->
+  exists x, from_iso8601_parsed d flag = Ok x /\
+    seconds (ts x) = e / MILLION /\ microseconds (ts x) = e mod MILLION /\
+    offset_minutes x = Ok 0 /\
+    (offset_bytes x = OB_MINUS0000 <-> flag = true) /\
+    (flag = false -> offset_bytes x = OB_PLUS0000).
+Proof. exact iso8601_minus_zero. Qed.
+Print Assumptions C16_iso8601_minus_zero.
+
+(* Non-vacuity: concrete non-trivial inputs meet the hypotheses. *)
+Theorem C16_satisfiable :
+  (let e := -1500000 in let m := 330 in
+   dt_valid (mkDt e (m * 60)) = true /\ secs_in_range (e / MILLION) /\
+   from_datetime (mkDt e (m * 60)) = Ok (mkTstz (mkTs (-2) 500000) [43; 48; 53; 51; 48]%N)) /\
+  (-32768 <= -32768 <= 32767 /\ from_numeric_offset (mkTs 0 0) (-32768) true = Ok (mkTstz (mkTs 0 0) [45; 53; 52; 54; 48; 56]%N)) /\
+  from_numeric_offset (mkTs 0 0) 0 true = Ok (mkTstz (mkTs 0 0) OB_MINUS0000) /\
+  format_date (mkTs (-5) 120000) = [45; 53; 46; 49; 50]%N /\
+  secs_in_range TS_MIN_SECONDS /\ secs_in_range TS_MAX_SECONDS /\
+  ~ secs_in_range (TS_MIN_SECONDS - 1) /\ ~ secs_in_range (TS_MAX_SECONDS + 1).
+Proof. exact satisfiable. Qed.
+Print Assumptions C16_satisfiable.
